@@ -3,5 +3,5 @@
 SPECIFICATION Spec
 CONSTANTS MaxBytes = 340  MaxRun = 48  MaxLead = 3  MaxTrail = 17
   AllHashers <- HashersAll  ByteExt <- ExtThorough
-INVARIANT Separates Emit
+INVARIANT Separates
 CHECK_DEADLOCK FALSE
